@@ -62,16 +62,26 @@ func (w *world) doOp(op int, k int, allowCancel bool) (failed bool) {
 		p.SyncAfterExec = sym.Bool("sync_after_exec")
 		ctx, cancel := kern.WithCancel(kern.Background())
 		w.mayRunForever = false
+		w.cancelFn, w.cancelFired = nil, false
 		if allowCancel && sym.Bool("cancel") {
 			w.mayRunForever = true
-			go func() {
-				sym.Yield()
+			switch sym.Choose("cancel_how", 3) {
+			case 0: // already cancelled when Execve is called
 				cancel()
-			}()
+			case 1: // a free-running canceller thread
+				go func() {
+					sym.Yield()
+					cancel()
+				}()
+			case 2: // at an arbitrary transport event of either side (the program ends by itself at some instant)
+				w.cancelFn = cancel
+				w.mayRunForever = false
+			}
 		}
 		w.prog = nil
 		res := c.Execve(ctx, p)
 		cancelled := kern.Cancelled(ctx)
+		w.cancelFn = nil
 		cancel()
 		failed = res.Status == runner.StatusRunnerError
 		if failed {
